@@ -174,7 +174,7 @@ def beat_formula(ctx: Ctx) -> None:
     m_idx, meas_var, m_iter = _enumerate_loop(i2)
     for lp_, what in ((o2, "player"), (i2, "measure")):
         ctx.expect("R-POLY", fit, f"{what} indices count from 0", _enumerate_start(lp_) == 0, "", f"enumerate starts at {_enumerate_start(lp_)}", node=lp_)
-    sp, sm = _split_on(p_iter), _split_on(m_iter)
+    sp, sm = _split_on(inline(p_iter, fit)), _split_on(inline(m_iter, fit))
     sn = fit.param_names()[0]
     ctx.expect("R-TABLE", fit, "player sections are split on '&'", sp is not None and sp[1] == "&" and self_attr(sp[0], sn) == "_notedata", src(p_iter), f"outer loop iterates {src(p_iter)}", node=o2)
     ctx.expect("R-TABLE", fit, "measures are split on ','", sm is not None and sm[1] == "," and isinstance(sm[0], ast.Name) and sm[0].id == sect_var, src(m_iter), f"inner loop iterates {src(m_iter)}", node=i2)
